@@ -124,6 +124,14 @@ pub fn main(args: &[String]) {
                     ];
                     g
                 }
+                // 100x100 grid, rows repeat(auto-fit, 10px), no columns, no in-flow child: occupancy matrix is 0x0
+                5 | 6 => {
+                    let kids = if which == 5 { vec![] } else { vec![NodeSpec::leaf(Style { display: Display::None, ..Default::default() })] };
+                    let mut g = grid(kids, 0, 0);
+                    g.style.size = Size::from_lengths(100.0, 100.0);
+                    g.style.grid_template_rows = vec![TrackSizingFunction::Repeat(GridTrackRepetition::AutoFit, vec![length(10.0)])];
+                    g
+                }
                 _ => std::process::exit(3),
             };
             let r = std::panic::catch_unwind(|| {
